@@ -154,6 +154,66 @@ def prune_objs(max_bytes=1_200_000_000):
         os.remove(f)
 
 
+# ---------------------------------------------------------------------------------------------------
+# XML-enabled library (appended for C37/C32): src/engine + src/user + src/xml of the working tree,
+# with harness/stubs/tinyxml2.h + tinyxml2_shim.cc standing in for tinyxml2 (which cannot be fetched
+# offline) and WITHOUT xml_stub.c.  src/xml/mjz/* is left out (needs miniz, absent).
+# Usage:   lib, info = build_lib_xml(repo)
+#          exe = build_driver("name", ["drv.cc"], repo, lib)          # link line: g++ objs lib -lm -lpthread -ldl
+def xml_sources(repo):
+    return sorted(glob.glob(os.path.join(repo, "src/xml/*.cc")))
+
+
+def xml_digest(repo, hdig):
+    """header digest extended by everything the src/xml translation units #include besides *.h:
+    the generated tables under src/xml/generated."""
+    h = hashlib.sha256(hdig.encode())
+    for f in sorted(glob.glob(os.path.join(repo, "src/xml/generated/*.inc")) +
+                    glob.glob(os.path.join(repo, "src/xml/generated/*.h"))):
+        h.update(os.path.relpath(f, repo).encode())
+        with open(f, "rb") as fh:
+            h.update(fh.read())
+    return h.hexdigest()
+
+
+def build_lib_xml(repo=None, extra=(), tag=""):
+    """returns (path to libmj_xml_<key>.a, info dict) or raises RuntimeError.  Same content-hash
+    object cache as build_lib: engine/user objects are shared with libmj_nox."""
+    repo = repo or REPO
+    os.makedirs(OBJ, exist_ok=True)
+    t0 = time.time()
+    hdig = header_digest(repo)
+    xdig = xml_digest(repo, hdig)
+    base = [s for s in lib_sources(repo) if os.path.basename(s) != "xml_stub.c"]
+    xml = xml_sources(repo) + [os.path.join(STUBS, "tinyxml2_shim.cc")]
+    if len(xml) < 5:
+        raise RuntimeError("src/xml/*.cc not found under %s" % repo)
+    jobs = [(s, hdig) for s in base] + [(s, xdig) for s in xml]
+    with ThreadPoolExecutor(max_workers=16) as ex:
+        res = list(ex.map(lambda j: compile_one(j[0], repo, j[1], extra), jobs))
+    errs = [e for (_, e) in res if e]
+    if errs:
+        raise RuntimeError("\n".join(errs))
+    objs = [o for (o, _) in res]
+    lkey = sha(("\n".join(objs)).encode())[:24]
+    lib = os.path.join(BUILD, "lib", "libmj_xml_%s.a" % lkey)
+    if not os.path.exists(lib):
+        os.makedirs(os.path.dirname(lib), exist_ok=True)
+        tmp = lib + ".%d.tmp" % os.getpid()
+        if os.path.exists(tmp):
+            os.remove(tmp)
+        subprocess.run(["ar", "rcs", tmp] + objs, check=True)
+        os.replace(tmp, lib)
+        libs = sorted(glob.glob(os.path.join(BUILD, "lib", "libmj_xml_*.a")), key=os.path.getmtime)
+        for old in libs[:-6]:
+            try:
+                os.remove(old)
+            except OSError:
+                pass
+    return lib, {"lib": lib, "n_sources": len(jobs), "n_xml_sources": len(xml), "xml_left_out": ["src/xml/mjz/*"],
+                 "header_digest": hdig[:16], "xml_digest": xdig[:16], "wall_s": round(time.time() - t0, 2)}
+
+
 if __name__ == "__main__":
     try:
         lib, info = build_lib()
